@@ -46,3 +46,69 @@ func SaveSequences(n int) (out [][]int) {
 	rec(nil)
 	return
 }
+
+// LoadAfterReplace: a Load(path) entry point is a function of the bytes the file holds now — not of
+// what the same path held when it was loaded before.  For every ordered pair (a, b) of the given
+// files: a is written to a path and loaded; the file is replaced by b — same path, and (when their
+// sizes agree, as the menu arranges for some pairs) the same size — and its modification time is set
+// back to what it was (cp -p, rsync -t, archive extraction, two exports within one tick of a coarse
+// clock); the path is loaded again and must give what b gives at a path never seen before.
+// load returns a digest of everything the decode reported.  Returns "" or what differed.
+func LoadAfterReplace(ext string, files [][]byte, load func(path string) (string, error)) string {
+	base := ""
+	if st, err := os.Stat("/dev/shm"); err == nil && st.IsDir() {
+		base = "/dev/shm"
+	}
+	dir, err := os.MkdirTemp(base, "verif-replace-*")
+	if err != nil {
+		return ""
+	}
+	defer os.RemoveAll(dir)
+	ref := make([]string, len(files))
+	for i, f := range files {
+		p := filepath.Join(dir, fmt.Sprintf("fresh-%d%s", i, ext))
+		if err := os.WriteFile(p, f, 0o644); err != nil {
+			return ""
+		}
+		var d string
+		var e error
+		if o := Guard(func() { d, e = load(p) }); o.Panicked || e != nil {
+			return "" // this file does not load at all: judged elsewhere
+		}
+		ref[i] = d
+	}
+	n := 0
+	for i := range files {
+		for j := range files {
+			if i == j {
+				continue
+			}
+			n++
+			p := filepath.Join(dir, fmt.Sprintf("model-%d%s", n, ext))
+			if err := os.WriteFile(p, files[i], 0o644); err != nil {
+				return ""
+			}
+			st, err := os.Stat(p)
+			if err != nil {
+				return ""
+			}
+			Guard(func() { _, _ = load(p) })
+			if err := os.WriteFile(p, files[j], 0o644); err != nil {
+				return ""
+			}
+			_ = os.Chtimes(p, st.ModTime(), st.ModTime())
+			var d string
+			var e error
+			o := Guard(func() { d, e = load(p) })
+			switch {
+			case o.Panicked:
+				return fmt.Sprintf("file %d (%d bytes) loaded, replaced in place by file %d (%d bytes, same modification time), loaded again: panic: %s", i, len(files[i]), j, len(files[j]), o.Msg)
+			case e != nil:
+				return fmt.Sprintf("file %d (%d bytes) loaded, replaced in place by file %d (%d bytes, same modification time), loaded again: error: %v", i, len(files[i]), j, len(files[j]), e)
+			case d != ref[j]:
+				return fmt.Sprintf("file %d (%d bytes) loaded, replaced in place by file %d (%d bytes, same modification time), loaded again: the result is not what file %d gives at a fresh path", i, len(files[i]), j, len(files[j]), j)
+			}
+		}
+	}
+	return ""
+}
